@@ -3,8 +3,9 @@ import DadiVerif.Lemmas.Optim
 # C12 — optimisers honour bounds and fixed parameters and report the point they found
 
 Property theorems only (helper lemmas: `Lemmas/Optim.lean`).  They are about the definitions the driver executes:
-`projectDown/projectUp`, `objectFunc`, `evalV/evalB`, `wrapperObjective`, `runOpt`, `runWrapper`, `objectiveAtFull`,
-`perturbEntry` (Model/Optim.lean) and the GENERATED `lowerViolated … objReturn`, `downKeeps`, `upTakesFree`, `wrappers`,
+`projectDown/projectUp`, `objectFunc`, `evalV/evalB`, `wrapperObjective`, `runOpt`, `runWrapper` (through their element-typed forms
+`projectUpT`, `objectFuncT`, `runWrapperT`, which `C12_up_dtype` / `C12_objective_dtype` / `C12_run_dtype` prove equal), `objectiveAtFull`,
+`perturbEntry` (Model/Optim.lean) and the GENERATED `lowerViolated … objReturn`, `downKeeps`, `upTakesFree`, `upOutDtype`, `wrappers`,
 `perturbSteps`, `perturbMutatesBounds`, shape flags (Generated/Optim.lean, rewritten from dadi/Inference.py,
 dadi/NLopt_mod.py, dadi/Misc.py on every run).
 
